@@ -7,7 +7,8 @@ directory facts*: for every configured entry, which of the conditions that `chec
 `witnessHealth.loadVerifiers`/`hashes` and `witnessHealth.check` test hold in the directory right now.
 The conditions are enumerated in the order the code tests them (the first one that fails is the
 one reported); `Tie/C20.lean` ties that order and the error texts to the source. Part 2
-(`Skylight.Route`) is in `Model/SkylightRoute.lean`.
+(`Skylight.Route`, below) is the router: which file of which configured directory a GET request is
+answered from, and with which headers.
 -/
 namespace Skylight.Health
 
@@ -203,3 +204,235 @@ def lines (c : Config) : List Line := c.logs.map logLine ++ c.wits.flatMap witLi
 def status (c : Config) : Nat := if (lines c).any (·.2.isFailed) then 500 else 200
 
 end Skylight.Health
+
+
+/-!
+# Part 2 — the read path (C19)
+
+`route cfg host path`: what a `GET` for `path` (the decoded `URL.Path`, request target in canonical
+encoding) with the given `Host` is answered from. The composition in `main` is
+
+    http.ServeMux (host-specific patterns first, path cleaned → 301 if it changes, trailing-slash redirect)
+      → per log:      StripPrefix(prefix.Path) → logMux → FileServerFS(filesOnlyFS{root.FS()})
+      → per witness:  {origin}/ and mirror/{origin}/: StripPrefix(prefix.Path/[mirror/]origin) → logMux
+                      → handler that puts "/[mirror/]origin" back in front → FileServerFS(…)
+                      witness.v0.json, mirror/mirror.v0.json: StripPrefix(prefix.Path) → FileServerFS(…)
+
+Paths are handled as *segment lists*: `cleanParts` is `cleanPath` of net/http (path.Clean plus the
+kept trailing slash) returning the segments of the cleaned path; the router only ever builds file
+names out of these segments, which is what `C19_confined_model` exploits.
+Not modelled: methods other than GET (405), the rate limiter (429), `/metrics`, `/health`, `/logs.json`
+bodies, request targets whose escaping is not canonical (`%2e`, `%2f`: exercised by the harness against
+the runtime oracle only), `Last-Modified` / range handling of the file server.
+-/
+namespace Skylight.Route
+open TilePath
+
+/-! ## net/http path cleaning -/
+
+def dot : Bytes := [46]
+def dotdot : Bytes := [46, 46]
+
+/-- one element of `path.Clean`'s scan over a rooted path; the stack is kept reversed -/
+def cleanStep (st : List Bytes) (s : Bytes) : List Bytes :=
+  if s = [] ∨ s = dot then st
+  else if s = dotdot then st.drop 1
+  else s :: st
+
+def cleanSegs (ss : List Bytes) : List Bytes := (ss.foldl cleanStep []).reverse
+
+/-- `"/a/b"` for `["a","b"]`, `""` for `[]` -/
+def joinSegs : List Bytes → Bytes
+  | [] => []
+  | s :: r => 47 :: s ++ joinSegs r
+
+/-- segments of `cleanPath(p)` and whether it keeps a trailing slash -/
+def cleanParts (p : Bytes) : List Bytes × Bool :=
+  let q := match p with
+    | 47 :: q => q
+    | q => q
+  let S := cleanSegs (split 47 q)
+  (S, p.getLast? == some 47 && !S.isEmpty)
+
+def render (S : List Bytes) (tr : Bool) : Bytes :=
+  if S.isEmpty then [47] else joinSegs S ++ (if tr then [47] else [])
+
+/-- net/http `cleanPath` -/
+def cleanPath (p : Bytes) : Bytes := render (cleanParts p).1 (cleanParts p).2
+
+/-- `"a/b"` for `["a","b"]` -/
+def relPath : List Bytes → Bytes
+  | [] => []
+  | [s] => s
+  | s :: r => s ++ 47 :: relPath r
+
+/-! ## configuration -/
+
+structure Entry where
+  host : Bytes             -- prefix.Host
+  pfx : List Bytes         -- segments of prefix.Path ([] for a host-only prefix)
+deriving DecidableEq, Repr
+
+structure Cfg where
+  home : Bool              -- HomeRedirect configured
+  logs : List Entry
+  wits : List Entry
+
+inductive RootId where
+  | log (i : Nat) | wit (i : Nat)
+deriving DecidableEq, Repr
+
+/-! ## headers -/
+
+inductive Kind where
+  | checkpoint | logJSON | issuer | tile | data | partialData | names | witnessJSON | mirrorJSON
+deriving DecidableEq, Repr
+
+structure Hdrs where
+  ctype : String
+  gzip : Bool              -- Content-Encoding: gzip
+  cache : String           -- Cache-Control ("" = not set)
+deriving DecidableEq, Repr
+
+def immutableCC : String := "public, max-age=604800, immutable"
+
+/-- the tile the handler switches on: `sunlight.ParseTilePath`, falling back to
+`torchwood.ParseTilePath`, falling back to the zero `tlog.Tile` (level 0) -/
+def tileOf (tilePath : Bytes) : Tile :=
+  match sunlightParse tilePath with
+  | some t => t
+  | none =>
+    match torchwoodParse tilePath with
+    | some t => t
+    | none => ⟨0, 0, 0, 0⟩
+
+/-- `switch tile.L` of the tile handler -/
+def tileHeaders (t : Tile) : Kind × Hdrs :=
+  if t.L = -1 then (if t.W < 256 then .partialData else .data, ⟨"application/octet-stream", true, immutableCC⟩)
+  else if t.L = -2 then (.names, ⟨"application/jsonl; charset=utf-8", true, immutableCC⟩)
+  else (.tile, ⟨"application/octet-stream", false, immutableCC⟩)
+
+def checkpointHdrs : Hdrs := ⟨"text/plain; charset=utf-8", false, "no-store"⟩
+def jsonHdrs : Hdrs := ⟨"application/json", false, ""⟩
+def issuerHdrs : Hdrs := ⟨"application/pkix-cert", false, immutableCC⟩
+
+/-! ## routing -/
+
+inductive Outcome where
+  /-- handed to the file server of `root`: the file named by the segments `rel` (with a trailing
+  slash if `tr`), to be answered with `hdrs` (plus `Access-Control-Allow-Origin: *`) -/
+  | file (root : RootId) (rel : List Bytes) (tr : Bool) (kind : Kind) (hdrs : Hdrs)
+  | redirect               -- 301 (unclean path, missing trailing slash) or 302 (home)
+  | notFound
+  | special (name : String) -- /metrics, /health, /logs.json
+deriving DecidableEq, Repr
+
+/-- `logMux` on the path that is left after the prefix was stripped; `fp` are the segments the
+witness handler puts back in front (`[]` for a log) -/
+def logMux (home : Bool) (root : RootId) (fp : List Bytes) (R : List Bytes) (tr : Bool) : Outcome :=
+  match R, tr with
+  | [], _ => if home then .redirect else .notFound                                  -- "/{$}"
+  | [c], false =>
+    if c = ascii "checkpoint" then .file root (fp ++ R) false .checkpoint checkpointHdrs
+    else if c = ascii "log.v3.json" then .file root (fp ++ R) false .logJSON jsonHdrs
+    else if c = ascii "tile" then .redirect                                         -- "/tile" → "/tile/"
+    else .notFound
+  | [i, _], false =>
+    if i = ascii "issuer" then .file root (fp ++ R) false .issuer issuerHdrs         -- "GET /issuer/{issuer}"
+    else if i = ascii "tile" then
+      let th := tileHeaders (tileOf (relPath R))
+      .file root (fp ++ R) false th.1 th.2
+    else .notFound
+  | t :: rest, tr =>
+    if t = ascii "tile" then                                                        -- "GET /tile/{tile...}"
+      let tilePath := relPath (t :: rest) ++ (if tr || rest.isEmpty then [47] else [])
+      let th := tileHeaders (tileOf tilePath)
+      .file root (fp ++ t :: rest) (tr || rest.isEmpty) th.1 th.2
+    else .notFound
+
+def isPrefix : List Bytes → List Bytes → Bool
+  | [], _ => true
+  | _ :: _, [] => false
+  | a :: as, b :: bs => a == b && isPrefix as bs
+
+/-- the first entry of the list registered for this host whose prefix the path starts with -/
+def findEntry (host : Bytes) (S : List Bytes) : List Entry → Nat → Option (Nat × Entry)
+  | [], _ => none
+  | e :: rest, i => if e.host == host && isPrefix e.pfx S then some (i, e) else findEntry host S rest (i + 1)
+
+def witnessRoute (home : Bool) (j : Nat) (R : List Bytes) (tr : Bool) : Option Outcome :=
+  let root := RootId.wit j
+  match R, tr with
+  | [], _ => none                                   -- "/p" or "/p/": no witness pattern
+  | [w], false =>
+    if w = ascii "witness.v0.json" then some (.file root [w] false .witnessJSON jsonHdrs)
+    else some .redirect                             -- "/p/x" → "/p/x/" ({origin}/ matches exactly)
+  | [m, x], false =>
+    if m = ascii "mirror" then
+      if x = ascii "mirror.v0.json" then some (.file root [m, x] false .mirrorJSON jsonHdrs)
+      else some .redirect                           -- "/p/mirror/x" → "/p/mirror/x/" ("mirror/{origin}/" matches exactly)
+    else some (logMux home root [m] [x] false)      -- {origin} = m
+  | m :: o :: R', tr =>
+    if m = ascii "mirror" then some (logMux home root [m, o] R' tr)
+    else some (logMux home root [m] (o :: R') tr)
+  | [o], true => some (logMux home root [o] [] true)
+
+def hostless (home : Bool) (S : List Bytes) (tr : Bool) : Outcome :=
+  match S, tr with
+  | [], _ => if home then .redirect else .notFound
+  | [x], false =>
+    if x = ascii "metrics" then .special "metrics"
+    else if x = ascii "health" then .special "health"
+    else if x = ascii "logs.json" then .special "logs.json"
+    else .notFound
+  | _, _ => .notFound
+
+def routeSegs (c : Cfg) (host : Bytes) (S : List Bytes) (tr : Bool) : Outcome :=
+  match findEntry host S c.logs 0 with
+  | some (i, e) =>
+    let R := S.drop e.pfx.length
+    if R.isEmpty && !tr && !e.pfx.isEmpty then .redirect      -- "/p" → "/p/"
+    else logMux c.home (.log i) [] R tr
+  | none =>
+    match findEntry host S c.wits 0 with
+    | some (j, e) =>
+      match witnessRoute c.home j (S.drop e.pfx.length) tr with
+      | some o => o
+      | none => hostless c.home S tr
+    | none => hostless c.home S tr
+
+/-- a GET request as the server sees it -/
+def route (c : Cfg) (host path : Bytes) : Outcome :=
+  if cleanPath path ≠ path then .redirect
+  else routeSegs c host (cleanParts path).1 (cleanParts path).2
+
+/-! ## the file server's answer -/
+
+/-- what opening a name under the `os.Root` gives: a regular file; nothing (also: a directory, which
+`filesOnlyFS` hides); or an error other than "does not exist" (a path through a regular file, a
+symbolic link leaving the root: the file server answers 500) -/
+inductive FileState where
+  | regular | absent | refused
+deriving DecidableEq, Repr
+
+inductive Response where
+  | ok (root : RootId) (file : Bytes) (hdrs : Hdrs)   -- 200: the bytes of that regular file
+  | moved                                              -- 301 / 302
+  | notFound                                           -- 404: text/plain, no Content-Encoding, no Cache-Control
+  | error                                              -- 500
+  | special (name : String)
+deriving DecidableEq, Repr
+
+/-- `http.FileServerFS(filesOnlyFS{root.FS()})` -/
+def respond (look : RootId → Bytes → FileState) : Outcome → Response
+  | .file root rel tr _ hdrs =>
+    if rel.getLast? = some (ascii "index.html") ∧ !tr then .moved        -- "…/index.html" → "./"
+    else match look root (relPath rel) with
+      | .regular => if tr then .moved else .ok root (relPath rel) hdrs
+      | .absent => .notFound
+      | .refused => .error
+  | .redirect => .moved
+  | .notFound => .notFound
+  | .special n => .special n
+
+end Skylight.Route
